@@ -157,9 +157,12 @@ def random_case(rng: Any) -> Dict[str, Any]:
     for rule in rules:
         rule["cut"] = rng.choice([1, 2, 3, 4, 6, 9])
         rule["nb"] = rng.choice([1, 2, 3, 5, 8])
+    roomy = rng.random() < 0.7     # most sampled rings are much longer than the distances
     cuts = sorted({r["cut"] for r in rules})
     menu = [-3, -2, -1, 0, 1, 12] + [c + d for c in cuts for d in (-1, 0, 1) if c + d >= 0]
     gaps = [rng.choice(menu) for _ in range(count)]
+    if roomy:
+        gaps[rng.randrange(count)] = rng.choice([25, 30, 40, 60])
     letters = {"single": ["a", "a", "a", "c", ""], "pairs": ["a", "b", "ab", "", "c"], "sups": ["a", "b", "ab", ""],
                "exts": ["a", "c", "b", "", "c"], "conds": ["a", "b", "ab", "c", "ac", ""]}[kind]
     hits = [rng.choice(letters) for _ in range(count)]
